@@ -228,6 +228,9 @@ class CasXmiDeserializer:
                 if is_instance_of_string_array_map[fs.type.name]:
                     # We already parsed string arrays to a Python list of string
                     # before, so we do not need to work more on this
+                    if feature_name == "elements" and value is None:
+                        # An empty string array is written without any child element
+                        fs[feature_name] = []
                     continue
                 elif typesystem.is_primitive(feature.rangeType):
                     fs[feature_name] = self._parse_primitive_value(feature.rangeType, value)
